@@ -25,6 +25,7 @@ def run(tier):
                           env={"H_SPEC": spec, "H_BUDGETS": "0,2,5,12" if tier == "quick" else "0,2,5,12,30",
                                "H_CHOICES": "8" if tier == "quick" else "14", "H_RSIZE": {"open": "5", "prefix": "5"}.get(spec, "7")}))
     conds.append(Cond("h_fuzz.py", "roundtrip_bytes", to, path_timeout=to / 2, env={"H_SPEC": "rxgen", "H_BUDGETS": "5,12", "H_CHOICES": "6"}))
+    conds.append(Cond("h_fuzz.py", "roundtrip_bytes", to, path_timeout=to / 2, env={"H_SPEC": "rxws", "H_BUDGETS": "12", "H_CHOICES": "4"}))
     run.run_conditions(conds, conformance_harnesses=["h_parse_str.py"] + [("h_fuzz.py", {"H_SPEC": s}) for s in ("list", "nested", "open")])
     run.encoded = PARSER_FUNCS + ["Grammar.fuzz", "Alternative/Concatenation/Repetition/NonTerminalNode/TerminalNode.fuzz"]
     run.extra["source_sha256_16"] = source_fingerprint(PARSER_FILES)
